@@ -129,6 +129,10 @@ class Sim:
         self.io = None  # persist.IO, attached by runner when needed
         self.restarts = 0
         self.recent: list = []
+        self.npt = None
+        if world.get("np_client"):
+            self.npt = np.dtype(world["dtype"]).type if world["seg"] else np.int64
+            self.count("cfg_numpy_scalar_client")
         self.aborted = None
         self.count("cfg_" + ("seg" if self.with_seg else "noseg"))
         self.count("cfg_%dd" % (world["ndim"] - 1))
@@ -137,6 +141,8 @@ class Sim:
         self.count("cfg_ids_" + world["ids"])
         if world.get("big"):
             self.count("cfg_big_sparse_ids")
+        if world.get("id_keys") == "renamed":
+            self.count("cfg_id_keys_renamed")
         if not world["nodes"]:
             self.count("cfg_empty_start")
 
@@ -367,6 +373,20 @@ class Sim:
         """Structural edits (and undo/redo) are only scheduled while track ids are managed
         (by the client's account: it has not switched them off)."""
         return self.tracks.features.tracklet_key in self.model_active
+
+    def N(self, x):
+        """The argument as the simulated client passes it: a numpy scalar of the label
+        dtype (int64 without segmentation) if this run's client works with arrays."""
+        if self.npt is None or isinstance(x, bool) or not isinstance(x, int):
+            return x
+        info = np.iinfo(self.npt)
+        return self.npt(x) if info.min <= x <= info.max else x
+
+    def NT(self, x):
+        """Times, track and lineage ids of such a client: int64 (coordinate / table columns)."""
+        if self.npt is None or isinstance(x, bool) or not isinstance(x, int):
+            return x
+        return np.int64(x)
 
     def _note_recent(self, a, b):
         """Nodes the operation touched (created, changed, or an endpoint of a created /
@@ -1068,9 +1088,9 @@ class Sim:
         if reuse:
             # a client that keeps one attributes dict and overwrites the fields it knows
             # about before every call (the dict object itself is handed to the library)
-            self.shared_attrs.update(attrs)
-            return UserAddNode(self.tracks, node, self.shared_attrs, pixels=pixels, force=force)
-        return UserAddNode(self.tracks, node, dict(attrs), pixels=pixels, force=force)
+            self.shared_attrs.update({k: self.NT(v) for k, v in attrs.items()})
+            return UserAddNode(self.tracks, self.N(node), self.shared_attrs, pixels=pixels, force=force)
+        return UserAddNode(self.tracks, self.N(node), {k: self.NT(v) for k, v in attrs.items()}, pixels=pixels, force=force)
 
     def _bg_pixels(self, t, spec):
         seg = self.tracks.segmentation
@@ -1139,7 +1159,7 @@ class Sim:
             pixels_arg = (np.array([t_n]), *[np.array([s]) for s in self.fshape])
             tags.append("invalid_bad_pixels")
         out = self._user_action(
-            op, lambda: UserDeleteNode(tr, n, pixels=pixels_arg), "dn", {"node": n}, tags,
+            op, lambda: UserDeleteNode(tr, self.N(n), pixels=pixels_arg), "dn", {"node": n}, tags,
             named={"nodes": named, "tracks": set()}, extra={"allowed_removals": allowed, "reason": "unknown" if n not in g.nodes else ("bad_pixels" if pixels_arg is not None else None)},
         )
         if out["cls"] == "accepted":
@@ -1217,7 +1237,7 @@ class Sim:
         else:
             tags.append("invalid_unknown")
         out = self._user_action(
-            op, lambda: UserAddEdge(tr, (u, v), force=force), "ae", {"edge": (u, v), "force": force}, tags,
+            op, lambda: UserAddEdge(tr, (self.N(u), self.N(v)), force=force), "ae", {"edge": (u, v), "force": force}, tags,
             named={"nodes": {u, v}, "tracks": set()},
             extra={"allowed_removals": allowed, "must_have_edges": [(u, v)], "reason": must_refuse or ("unknown" if "invalid_unknown" in tags else None)},
         )
@@ -1270,7 +1290,7 @@ class Sim:
             if self.time_of(e[1]) - self.time_of(e[0]) > 1:
                 tags.append("skip_edge")
         out = self._user_action(
-            op, lambda: UserDeleteEdge(tr, e), "de", {"edge": e}, tags,
+            op, lambda: UserDeleteEdge(tr, (self.N(e[0]), self.N(e[1]))), "de", {"edge": e}, tags,
             named={"nodes": set(e), "tracks": set()},
             extra={"allowed_removals": {e}, "reason": "missing" if "invalid_missing" in tags else None},
         )
@@ -1314,7 +1334,7 @@ class Sim:
             tags.append("same_pred")
         allowed = set(g.in_edges(a)) | set(g.in_edges(b)) if a in g.nodes and b in g.nodes else set()
         out = self._user_action(
-            op, lambda: UserSwapPredecessors(tr, nodes), "sw", {"nodes": nodes}, tags,
+            op, lambda: UserSwapPredecessors(tr, tuple(self.N(x) for x in nodes)), "sw", {"nodes": nodes}, tags,
             named={"nodes": {a, b} | set(pa) | set(pb), "tracks": set()},
             extra={"allowed_removals": allowed, "reason": inv or ("swap_" + "_".join(tags))},
         )
@@ -1372,7 +1392,7 @@ class Sim:
             attrs = {"score": 0.75, "note": np.asarray(1.0)}
             tags.append("invalid_bad_value")
         out = self._user_action(
-            op, lambda: UserUpdateNodeAttrs(tr, n, attrs), "ua", {"node": n, "attrs": {k: repr(v) for k, v in attrs.items()}}, tags,
+            op, lambda: UserUpdateNodeAttrs(tr, self.N(n), attrs), "ua", {"node": n, "attrs": {k: repr(v) for k, v in attrs.items()}}, tags,
             named={"nodes": {n}, "tracks": set()}, extra={"allowed_removals": set(), "reason": "protected" if must_refuse else ("unknown" if n not in tr.graph.nodes else None)},
         )
         if self.active("C10") and must_refuse:
@@ -1385,7 +1405,7 @@ class Sim:
                 if dd:
                     self.violate("C10", "C10.protected", f"refused update of protected key {key!r} changed {dd[:2]}", op, tags)
                 else:
-                    self.count("f_protected_" + ("time" if key == tr.features.time_key else key))
+                    self.count("f_protected_" + ("time" if key == tr.features.time_key else "track_id" if key == tr.features.tracklet_key else "lineage_id" if key == tr.features.lineage_key else key))
         self._maybe_reinvert(op, out)
         return out
 
@@ -1505,7 +1525,7 @@ class Sim:
         named_tracks = {tid} if vmode == "new" else set()
         allowed = None  # composite: forced-removal oracle not applied to paint
         out = self._user_action(
-            op, lambda: UserUpdateSegmentation(tr, value, updated, tid, force=force), "pt",
+            op, lambda: UserUpdateSegmentation(tr, self.N(value), [(px, self.N(o)) for px, o in updated], self.NT(tid), force=force), "pt",
             {"t": t, "value": value, "olds": olds, "track": tid, "force": force, "npix": int(mask.sum())}, tags,
             named={"nodes": named_nodes, "tracks": named_tracks},
             extra={"allowed_removals": allowed, "reason": "paint_" + "_".join(x for x in tags if x != "forced")},
